@@ -360,7 +360,8 @@ Definition native (name : str) (bs : list (str * value)) (st : state) : state * 
           end
         | Mul, Some lx, None =>
           match y with
-          | VInt k => let '(st', n) := alloc st (CList (repeat_list (Z.to_nat k) lx)) in (st', OV (VRef KList n))
+          | VInt k => if 100000 <? k then (st, OUnm)
+                      else let '(st', n) := alloc st (CList (repeat_list (Z.to_nat k) lx)) in (st', OV (VRef KList n))
           | VNull => (st, OV VNull)
           | _ => (st, OUnm)
           end
